@@ -143,3 +143,69 @@ func H_C14_filters_exact() {
 	})
 	vReach("end")
 }
+
+// H_C14_batch_metadata_columns: every batch is a self-contained CSV whose header covers the metadata of its own chunks.
+//
+//symgo:harness prop=C14 kernel=K2-batch-metadata
+//symgo:desc 2..3 chunks, batch size 1..2 (enumerated), CSV with header and flattened metadata; which chunks carry a ParentID / WordCount is symbolic: each batch's header has a meta_parent_id (meta_word_count) column iff one of its own chunks has that field, and the chunk's row holds the value
+func H_C14_batch_metadata_columns() {
+	n := vAnyIntIn(2, 3)
+	size := vAnyIntIn(1, 2)
+	chunks := make([]*Chunk, n)
+	hasParent := make([]bool, n)
+	for i := range chunks {
+		chunks[i] = &Chunk{ID: "id" + string(rune('0'+i)), Text: "text", Metadata: ChunkMetadata{ChunkIndex: i}}
+		if vAnyBool() {
+			hasParent[i] = true
+			chunks[i].Metadata.ParentID = "parent" + string(rune('0'+i))
+		}
+	}
+	cfg := CSVExportConfig()
+	cfg.IncludeHeader = true
+	cfg.IncludeMetadata = true
+	ok := true
+	err := NewBatchExporterWithConfig(size, cfg).Export(chunks, func(b ExportBatch) error {
+		lines := strings.Split(strings.TrimRight(b.Data, "\n"), "\n")
+		want := false
+		for k := b.StartIndex; k < b.EndIndex; k++ {
+			if hasParent[k] {
+				want = true
+				if !strings.Contains(b.Data, chunks[k].Metadata.ParentID) {
+					ok = false
+				}
+			}
+		}
+		if strings.Contains(lines[0], "meta_parent_id") != want {
+			ok = false
+		}
+		return nil
+	})
+	vAssert("no-error", err == nil)
+	vAssert("batch-header-covers-its-own-metadata", ok)
+	vReach("end")
+}
+
+// H_C14_page_range_filter: FilterByPageRange is a pure selection.
+//
+//symgo:harness prop=C14 kernel=K3-page-range-filter
+//symgo:desc 1..3 chunks whose PageStart and PageEnd are independent symbolic integers in [0,4] (also PageEnd < PageStart, as left by an unset end page); query range symbolic in [0,5]: the result holds exactly the chunks with PageEnd >= start and PageStart <= end, in order
+func H_C14_page_range_filter() {
+	n := vAnyIntIn(1, 3)
+	cc := &ChunkCollection{}
+	for i := 0; i < n; i++ {
+		ps, pe := vAnyIntRange(0, 4), vAnyIntRange(0, 4)
+		cc.Chunks = append(cc.Chunks, &Chunk{ID: "id" + string(rune('0'+i)), Metadata: ChunkMetadata{ChunkIndex: i, PageStart: ps, PageEnd: pe}})
+	}
+	a, b := vAnyIntRange(0, 5), vAnyIntRange(0, 5)
+	got := cc.FilterByPageRange(a, b)
+	k := 0
+	for i := 0; i < n; i++ {
+		c := cc.Chunks[i]
+		if c.Metadata.PageEnd >= a && c.Metadata.PageStart <= b {
+			vAssert("selected-chunk-present-in-order", k < len(got.Chunks) && got.Chunks[k] == c)
+			k++
+		}
+	}
+	vAssert("nothing-else", k == len(got.Chunks))
+	vReach("end")
+}
